@@ -7,6 +7,12 @@ cd "$(dirname "$0")"
 export VERIF_ROOT="$PWD"
 export GOFLAGS=-mod=mod GOPROXY=off GOSUMDB=off GOTOOLCHAIN=local GONOSUMDB='*' GONOSUMCHECK=1 GOFLAGS=-mod=mod
 mkdir -p bin evidence replays
+# scratch hygiene: remove database directories left in /dev/shm by processes that no longer exist
+for d in /dev/shm/verif-[0-9]*-[0-9]* /dev/shm/verif-shards-* /dev/shm/verif-c04-* /dev/shm/verif-replay-*; do
+  [ -e "$d" ] || continue
+  pid=$(echo "$d" | sed -n 's|/dev/shm/verif-\([0-9]*\)-[0-9]*$|\1|p')
+  if [ -n "$pid" ]; then [ -d "/proc/$pid" ] || rm -rf "$d"; else find "$d" -maxdepth 0 -mmin +120 -exec rm -rf {} + 2>/dev/null; fi
+done
 
 build_s() {
   cp /repo/go.sum h/go.sum 2>/dev/null
@@ -42,6 +48,7 @@ case "${1:-}" in
     tier=quick
     case "$prop" in
       C14) VERIF_REPLAY="$(realpath "$2")" overlay_test c14 client TestVerifC14;;
+      C04) build_s; (cd h && go build -o ../bin/c04writer ./cmd/c04writer) || exit 3; exec bin/verifs replay "$2";;
       *) build_s; exec bin/verifs replay "$2";;
     esac;;
 esac
@@ -50,6 +57,10 @@ id="$1"; tier="${2:-quick}"
 case "$id" in
   C14)
     overlay_test c14 client TestVerifC14;;
+  C04)
+    build_s
+    (cd h && go build -o ../bin/c04writer ./cmd/c04writer) || { echo "HARNESS-ERROR: c04writer build failed"; exit 3; }
+    exec bin/verifs "$id" "$tier";;
   C09)
     build_s
     bustoken
